@@ -37,6 +37,7 @@ type Op struct {
 	T string `json:",omitempty"`
 	D int    `json:",omitempty"`
 	Ref bool `json:",omitempty"` // mandel: with the referrer check (WithManifestCheckReferrers)
+	Via string `json:",omitempty"` // mandel / getdig: the reference also carries this tag (repo:tag@digest)
 }
 type Case struct {
 	Kind   string  // ocidir | reg | conc
@@ -47,6 +48,7 @@ type Case struct {
 	Page   int             `json:",omitempty"`
 	Hidden map[string]bool `json:",omitempty"`
 	Scheme string          `json:",omitempty"`
+	Cache  bool            `json:",omitempty"` // registry runs: the client caches responses (reg.WithCache)
 }
 
 const nMan = 4
@@ -176,6 +178,9 @@ func doOp(ctx context.Context, rc *regclient.RegClient, base string, op Op) resu
 		return result{kind: "ok"}
 	case "mandel":
 		r, _ := ref.New(base + "@" + manDig[op.D])
+		if op.Via != "" {
+			r, _ = ref.New(base + ":" + op.Via + "@" + manDig[op.D])
+		}
 		var mo []regclient.ManifestOpts
 		if op.Ref {
 			mo = append(mo, regclient.WithManifestCheckReferrers())
@@ -291,8 +296,11 @@ func wellFormed(idx []Entry) bool {
 func newReg(c Case) (*regclient.RegClient, *memreg.Registry) {
 	mr := memreg.New("reg.example", memreg.Features{TagDelete: c.TagDel, Delete: true, TagPage: c.Page, TagHidden: c.Hidden})
 	rt := &memrt.RT{Handler: mr.Handle}
-	rc := regclient.New(regclient.WithConfigHost(config.Host{Name: "reg.example", Hostname: "reg.example", TLS: config.TLSDisabled}),
-		regclient.WithRegOpts(reg.WithHTTPClient(&http.Client{Transport: rt}), reg.WithDelay(time.Millisecond, 5*time.Millisecond)))
+	ro := []reg.Opts{reg.WithHTTPClient(&http.Client{Transport: rt}), reg.WithDelay(time.Millisecond, 5*time.Millisecond)}
+	if c.Cache {
+		ro = append(ro, reg.WithCache(5*time.Minute, 500))
+	}
+	rc := regclient.New(regclient.WithConfigHost(config.Host{Name: "reg.example", Hostname: "reg.example", TLS: config.TLSDisabled}), regclient.WithRegOpts(ro...))
 	return rc, mr
 }
 
@@ -467,7 +475,11 @@ func genOps(r *lib.Rand, n int) []Op {
 		case k < 52:
 			ops = append(ops, Op{K: "tagdel", T: t})
 		case k < 62:
-			ops = append(ops, Op{K: "mandel", D: d, Ref: r.Chance(40)})
+			o := Op{K: "mandel", D: d, Ref: r.Chance(40)}
+			if r.Chance(30) { // the caller names the manifest as repo:tag@digest
+				o.Via = lib.Pick(r, []string{"a", "b", "latest"})
+			}
+			ops = append(ops, o)
 		case k < 80:
 			ops = append(ops, Op{K: "head", T: t})
 		case k < 88:
@@ -501,7 +513,7 @@ func genCase(r *lib.Rand) Case {
 		}
 		return c
 	case k < 92:
-		c := Case{Kind: "reg", Ops: genOps(r, 3+r.Intn(18)), TagDel: r.Bool(), Page: r.Intn(4)}
+		c := Case{Kind: "reg", Ops: genOps(r, 3+r.Intn(18)), TagDel: r.Bool(), Page: r.Intn(4), Cache: r.Bool()}
 		if r.Chance(35) && c.Page > 0 {
 			c.Hidden = map[string]bool{}
 			for _, t := range tagPool {
